@@ -150,7 +150,26 @@ var (
 	c11SubKeys  = []string{"password", "token", "data", "keys", "value", "secret", "inner", "k0", "k1", "k2"}
 )
 
+// numericCore: a secret that consists of decimal digits only (a PIN, a one-time code, a card or account number, a
+// numeric secret id): 16 digits (a value an int64 can hold), the last three number the canary. An exact 16-digit match
+// inside an HMAC's hex form has probability 16^-16 per position.
+func (g *c11Gen) numericCore() string {
+	idx := g.n
+	g.n++
+	a := rapid.Uint64().Draw(g.rt, "na")
+	b := rapid.Uint64().Draw(g.rt, "nb")
+	return fmt.Sprintf("%d%06d%06d%03d", 1+a%9, a/9%1000000, b%1000000, idx%1000)
+}
+
 func (g *c11Gen) strLeaf() *c11Node {
+	if rapid.IntRange(0, 6).Draw(g.rt, "numericSecret") == 0 {
+		core := g.numericCore()
+		s := core
+		if rapid.IntRange(0, 3).Draw(g.rt, "negative") == 0 {
+			s = "-" + core
+		}
+		return &c11Node{kind: c11Str, str: s, core: core}
+	}
 	core := g.canaryCore()
 	s := core
 	if rapid.IntRange(0, 3).Draw(g.rt, "decorate") == 0 {
@@ -617,7 +636,7 @@ func c11Field(m map[string]any, path ...string) any {
 
 func TestVerif_C11_AuditFormat(t *testing.T) {
 	rec := verifx.NewRecorder("C11", "audit-format",
-		"logical.LogInput with generated request/response data trees (maps, slices, typed maps/slices, struct values, nesting <= 5; string, []byte, int, int64, uint64, float, json.Number, bool, nil, time, empty leaves), raw-body responses (http_raw_body as []byte and as string), wrapped responses, request and response Auth blocks, secret lease ids, request token/accessor; a fresh 24-char base62 canary in every string/[]byte leaf and every token/accessor field; config: hmac_accessor on/off, non-HMAC request/response keys from the top-level keys, elide_list_responses on/off, raw off; FormatRequest and FormatResponse with the JSON writer and a real salt; non-trivial = a canary at depth >= 2 or inside a slice, or a raw-body / wrap-info / auth case")
+		"logical.LogInput with generated request/response data trees (maps, slices, typed maps/slices, struct values, nesting <= 5; string, []byte, int, int64, uint64, float, json.Number, bool, nil, time, empty leaves), raw-body responses (http_raw_body as []byte and as string), wrapped responses, request and response Auth blocks, secret lease ids, request token/accessor; a fresh 24-char base62 canary (one string leaf in seven: a 16-digit decimal one, optionally negative) in every string/[]byte leaf and every token/accessor field; config: hmac_accessor on/off, non-HMAC request/response keys from the top-level keys, elide_list_responses on/off, raw off; FormatRequest and FormatResponse with the JSON writer and a real salt; non-trivial = a canary at depth >= 2 or inside a slice, or a raw-body / wrap-info / auth case")
 	defer rec.Flush()
 
 	const saltValue = "c1d1ab0e-5a17-4e1f-9e57-verif-c11-salt"
